@@ -388,8 +388,12 @@ PeerFail ==
         /\ need' = [p \in Dom(need) \cup ws |->
                       IF p \in ws THEN [c \in {x \in Dom(conn) \ gone : Registered(x) /\ NMatch(x, p) > 0} |-> NMatch(c, p)] ELSE need[p]]
         /\ UNCHANGED reach
+        \* a will registered with the retain flag is a retained publish like any other
+        /\ LET rw == {w \in ws : msgs[w].r} IN
+           ret' = [k \in Dom(ret) \cup {<<msgs[w].mount, msgs[w].t>> : w \in rw} |->
+                     IF \E w \in rw : k = <<msgs[w].mount, msgs[w].t>> THEN CHOOSE w \in rw : k = <<msgs[w].mount, msgs[w].t>> ELSE ret[k]]
   /\ outf' = Del(outf, {k \in Dom(outf) : conn[k[1]].n = Ev.n})
-  /\ UNCHANGED <<vnow, logs, acked, inq2, deliv, owed, ret, tags, sweeps, table, clears, faults>>
+  /\ UNCHANGED <<vnow, logs, acked, inq2, deliv, owed, tags, sweeps, table, clears, faults>>
 
 Inject ==
   /\ Ev.op = "inject"
